@@ -1,5 +1,6 @@
 import JenVerif.Registry
 import JenVerif.Quote
+import JenVerif.Render
 /-
   Primitives that the ALGORITHM translator (translator/algo.go, tie 1b) maps Go constructs to.
   Each is a small total definition with the semantics of the Go construct it stands for:
@@ -40,6 +41,17 @@ def lastIndexFrom (pat : Str) : Str → Nat → Int → Int
   | c :: cs, i, acc => lastIndexFrom pat cs (i + 1) (if Str.isPrefixOf pat (c :: cs) then Int.ofNat i else acc)
 
 def lastIndex (s pat : Str) : Int := lastIndexFrom pat s 0 (-1)
+
+/-- jen/tokens.go `tokenType` -/
+inductive TokTyp
+  | packageToken | identifierToken | qualifiedToken | keywordToken | operatorToken | delimiterToken
+  | literalToken | literalRuneToken | literalByteToken | nullToken | layoutToken
+deriving DecidableEq, Repr
+
+/-- `c == nil` for a Code interface value sitting in an item list -/
+def isNil : Code → Bool
+  | .nilc => true
+  | _ => false
 
 /-- `sort.Strings` (bytewise order) -/
 def sortStrings (l : List Str) : List Str := l.mergeSort Str.le
